@@ -10,8 +10,14 @@
 
   Observed for one configuration: the objects that exist after loading it as written (`plain1`), after
   loading it with every `assign where F` rewritten to `(F) && true` — which no recogniser accepts — (`wrap1`),
-  and both again with 16 commit threads.  Observed for one API query: the objects returned for the filter as
-  written (`fast`) and for `(F) && true` (`slow`).
+  both again with 16 commit threads, and both again with the text permuted (`perm1`, `permWrap1`: rules in
+  reverse order, the assign/ignore statements inside each rule in reverse order, objects in reverse order).
+  Observed for one API query: the objects returned for the filter as written (`fast`) and for `(F) && true`
+  (`slow`), and how many entries `GetFilterTargets` returned and the object-query and action handlers produced
+  for each of the two.
+
+  "the assign expression is true and the ignore expression is not" speaks of the whole rule: which statement is
+  written first does not enter (`matchDecl` looks at the two sets of expressions).
 
   The predicate never runs the model's `indexed`/`plain`/`apiTargets`; it uses only the meaning of the filter
   language (`eval`) to say which (rule, target, instance) triples *match*, written as the property says it:
@@ -43,10 +49,14 @@ structure LoadObs where
   wrap1 : Obs
   plain16 : Option Obs := none      -- `none`: not run
   wrap16 : Option Obs := none
+  /-- the permuted text (rules, statements inside the rules, objects in another order), as written / wrapped -/
+  perm1 : Option Obs := none
+  permWrap1 : Option Obs := none
 
 inductive Clause
   | fastpathIndependent | parallelIndependent | noMissingObject | noExtraObject | rejectedThoughDefined
   | targetInScope | apiFastpathIndependent | apiNoMissing | apiNoExtra | apiRejectedThoughDefined
+  | orderIndependent | apiMultiplicityIndependent
   deriving DecidableEq, Repr
 
 def Clause.name : Clause → String
@@ -60,6 +70,8 @@ def Clause.name : Clause → String
   | .apiNoMissing => "api_no_missing"
   | .apiNoExtra => "api_no_extra"
   | .apiRejectedThoughDefined => "api_rejected_though_defined"
+  | .orderIndependent => "order_independent"
+  | .apiMultiplicityIndependent => "api_multiplicity_independent"
 
 /-- the same *set* -/
 def sameSet {α : Type} [BEq α] (a b : List α) : Bool := a.all b.contains && b.all a.contains
@@ -143,17 +155,36 @@ def specLoad (w : World) (rules : Rules) (inv : Inventory) (silentIf : List ObjO
   else match expectedObjs w rules inv with
     | none => none
     | some exp =>
-      if silentIf exp then none
+      -- where every assign/ignore expression has a value on every (target, instance) — so that which statement is
+      -- written first cannot hide an error of a later one — the order of rules, statements and objects is immaterial
+      if !((o.perm1.map (sameObs o.plain1)).getD true && (o.permWrap1.map (sameObs o.wrap1)).getD true) then
+        some .orderIndependent
+      else if silentIf exp then none
       else match checkExact exp o.plain1 with
         | some c => some c
         | none => checkExact exp o.wrap1
 
 /-! ### API queries -/
 
+/-- How many entries came back (with multiplicity), for the filter as written (`…f`) and wrapped (`…s`). -/
+structure ApiCounts where
+  /-- `FilterUtility::GetFilterTargets`: length of the returned vector; `none`: it raised -/
+  nf : Option Nat
+  ns : Option Nat
+  /-- `GET /v1/objects/<type>` through `HttpHandler::ProcessRequest`: entries of `results`; `none`: status ≠ 200 -/
+  qf : Option Nat
+  qs : Option Nat
+  /-- `POST /v1/actions/reschedule-check`: entries of `results` (= invocations of the action); `none`: status ≠ 200 -/
+  af : Option Nat
+  asl : Option Nat
+  deriving DecidableEq, Repr
+
 structure ApiObs where
   /-- returned object names (duplicates removed by the observer); `none`: the query raised -/
   fast : Option (List Val)
   slow : Option (List Val)
+  /-- `none`: not observed -/
+  counts : Option ApiCounts := none
 
 /-- The objects the filter is true of; `none`: undefined for some object. -/
 def apiExpected (w : World) (fvars : Option (List (String × Val))) (ty : TgtType) (e : Expr) (inv : Inventory) :
@@ -162,7 +193,9 @@ def apiExpected (w : World) (fvars : Option (List (String × Val))) (ty : TgtTyp
   if d.any (· == none) then none
   else some (d.filterMap fun x => match x with | some (t, true) => some t | _ => none)
 
-def specApi (w : World) (fvars : Option (List (String × Val))) (ty : TgtType) (e : Expr) (inv : Inventory)
+/-- the set-valued reading: the same set of objects with and without the fast path, and exactly the objects the
+    filter is true of -/
+def specApiSets (w : World) (fvars : Option (List (String × Val))) (ty : TgtType) (e : Expr) (inv : Inventory)
     (o : ApiObs) : Option Clause :=
   if !sameObs o.fast o.slow then some .apiFastpathIndependent
   else match apiExpected w fvars ty e inv with
@@ -174,5 +207,18 @@ def specApi (w : World) (fvars : Option (List (String × Val))) (ty : TgtType) (
         if !(exp.all l.contains) then some .apiNoMissing
         else if !(l.all exp.contains) then some .apiNoExtra
         else none
+
+/-- "the same holds for API queries whose filter takes that fast path", for what a client sees of a query: how often an
+    object is listed by the object query and how often an action is run on it does not depend on the fast path -/
+def specApiMult (o : ApiObs) : Option Clause :=
+  match o.counts with
+  | none => none
+  | some c => if c.nf == c.ns && c.qf == c.qs && c.af == c.asl then none else some .apiMultiplicityIndependent
+
+def specApi (w : World) (fvars : Option (List (String × Val))) (ty : TgtType) (e : Expr) (inv : Inventory)
+    (o : ApiObs) : Option Clause :=
+  match specApiSets w fvars ty e inv o with
+  | some c => some c
+  | none => specApiMult o
 
 end Icinga.C16
